@@ -4,7 +4,8 @@ A *pairs case* is
   {'cell': <gens cell dict>, 'cart': bool, 'p0': [[3 floats] x N0], 'p1': [[3 floats] x N1],
    'flat0': bool, 'flat1': bool, 'spell': 'array'|'list'|'tuple'|'fview' (strided view of a wider array)|'intlist' (Python ints when every
    coordinate is integer-valued and the route is am.dvect/am.dmag, else float list), 'pbcspell': 'list'|'tuple'|'array',
-   'route': 'func'|'sys_pos'|'sys_idx', 'idx': 'int'|'list'|'array'|'slice'|'neg', 'kind': str}
+   'route': 'func'|'sys_pos'|'sys_idx'|'sys_mix' (pos_0 positions, pos_1 atom indices),
+   'idx': 'int'|'npint'|'list'|'array'|'slice'|'neg'|'mask', 'kind': str}
 with N0, N1 in {1, N} (one-to-one, one-to-many either side, many-to-many).  'p0'/'p1' are relative coordinates of
 the cell (Cartesian = s.V + origin, computed by the oracle) unless 'cart' is true, in which case they are Cartesian.
 All 8 periodicity settings are looped over by the oracle, so pbc is not part of the case.
@@ -18,10 +19,21 @@ from . import gens
 
 # ----------------------------------------------------------------------------- coordinates
 
-_FACE = st.sampled_from([0.0, 1.0, 0.0, 1.0, 0.5, 0.25, 0.75])
-_IN = st.one_of(gens.nice(0.0, 1.0, 4), gens.nice(0.0, 1.0, 4), _FACE)
-_WIDE = st.one_of(gens.nice(-3.0, 4.0, 4), gens.nice(-3.0, 4.0, 4), gens.nice(0.0, 1.0, 4),
-                  st.sampled_from([-1.0, 2.0, 0.0, 1.0, 1.5, -0.5]))
+# one integer draw per coordinate (cheap to generate, shrinks towards 0.0): 4-digit decimals mixed with exact specials
+_IN_SPECIAL = (0.0, 1.0, 0.0, 1.0, 0.5, 0.25, 0.75)
+_WIDE_SPECIAL = (-1.0, 2.0, 0.0, 1.0, 1.5, -0.5)
+
+
+def _in_value(k):
+    return k / 10000.0 if k <= 10000 else _IN_SPECIAL[(k - 10001) % 7]
+
+
+def _wide_value(k):
+    return k / 10000.0 if k <= 40000 else _WIDE_SPECIAL[(k - 40001) % 6]
+
+
+_IN = st.integers(0, 16000).map(_in_value)            # [0,1] incl. faces; ~37 % exact 0, 1, 1/2, 1/4, 3/4
+_WIDE = st.integers(-30000, 46000).map(_wide_value)   # [-3,4]; ~8 % exact -1, 2, 0, 1, 3/2, -1/2
 _PT_IN = st.lists(_IN, min_size=3, max_size=3)
 _PT_WIDE = st.lists(_WIDE, min_size=3, max_size=3)
 _DYAD8 = st.integers(0, 8).map(lambda k: k / 8.0)
@@ -33,13 +45,60 @@ _SHAPES = st.sampled_from(['1-1', '1-N', 'N-1', 'N-N', 'N-N', '1-N', 'N-1'])
 _NMANY = st.integers(2, 5)
 _SPELL = st.sampled_from(['array', 'array', 'list', 'tuple', 'fview', 'intlist'])
 _PBCSPELL = st.sampled_from(['list', 'tuple', 'array'])
-_ROUTE = st.sampled_from(['func', 'func', 'func', 'sys_pos', 'sys_idx'])
-_IDX = st.sampled_from(['int', 'list', 'array', 'slice', 'neg', 'npint'])
+_ROUTE = st.sampled_from(['func', 'func', 'func', 'func', 'sys_pos', 'sys_idx', 'sys_idx', 'sys_mix'])
+_IDX = st.sampled_from(['int', 'list', 'array', 'slice', 'neg', 'npint', 'mask'])
 _BOOL = st.booleans()
-_U01 = gens.nice(0.02, 0.98, 3)
-_DIR = gens.nice(-1.0, 1.0, 3)
-_CELLS = gens.cells()
-_CELLS_MILD = gens.cells(lmin=2.0, lmax=9.0)
+_U01 = st.integers(20, 980).map(lambda k: k / 1000.0)
+_DIR = st.integers(-1000, 1000).map(lambda k: k / 1000.0)
+
+
+# ----------------------------------------------------------------------------- cells (same domain and dict format as
+# gens.cells, i.e. the C01 cells, but every number is one integer draw mapped to a 3-digit decimal: ~4x cheaper)
+
+_MILLI = {}
+
+
+def _milli(lo, hi):
+    """3-digit decimals in [lo, hi]"""
+    key = (lo, hi)
+    if key not in _MILLI:
+        _MILLI[key] = st.integers(int(round(lo * 1000)), int(round(hi * 1000))).map(lambda k: k / 1000.0)
+    return _MILLI[key]
+
+
+_KIND = st.sampled_from(['tri', 'tri', 'ortho', 'family'])
+_TILT = st.integers(-1500, 2250).map(lambda k: k / 1000.0 if k <= 1500 else 0.0)     # [-1.5,1.5], 1 in 5 exactly 0
+_ORIGIN = _milli(-100.0, 100.0)
+_AXIS = st.integers(0, 11 ** 3 - 2).map(lambda k: k if k < 665 else k + 1).map(          # all of {-5..5}^3 except 0,0,0
+    lambda k: [k // 121 - 5, (k // 11) % 11 - 5, k % 11 - 5])
+_ANGLE = _milli(1.0, 180.0)
+_FAMILY = gens.family_params()
+
+
+@st.composite
+def cells_fast(draw, lmin=0.5, lmax=50.0):
+    kind = draw(_KIND)
+    if kind == 'family':
+        fp = draw(_FAMILY)
+        lx, ly, lz, xy, xz, yz = gens.abc_to_lammps(*fp['abc'])
+    else:
+        ln = _milli(lmin, lmax)
+        lx, ly, lz = draw(ln), draw(ln), draw(ln)
+        if kind == 'ortho':
+            xy = xz = yz = 0.0
+        else:
+            xy, xz, yz = draw(_TILT) * lx, draw(_TILT) * lx, draw(_TILT) * ly
+    org = [0.0, 0.0, 0.0]
+    if draw(_BOOL):
+        org = [draw(_ORIGIN), draw(_ORIGIN), draw(_ORIGIN)]
+    rot = None
+    if draw(_BOOL):
+        rot = [draw(_AXIS), draw(_ANGLE)]
+    return {'lx': lx, 'ly': ly, 'lz': lz, 'xy': xy, 'xz': xz, 'yz': yz, 'origin': org, 'rot': rot, 'lefthanded': False}
+
+
+_CELLS = cells_fast()
+_CELLS_MILD = cells_fast(lmin=2.0, lmax=9.0)
 
 
 @st.composite
@@ -144,9 +203,9 @@ def premise_heavy():
 
 _REF = st.sampled_from(['final', 'initial', 'initial', None, 'default'])
 _MODE = st.sampled_from(['same', 'strained', 'strained', 'other'])
-_STRAIN = gens.nice(0.9, 1.1, 3)
-_SHEAR = gens.nice(-0.1, 0.1, 3)
-_SMALL = gens.nice(-0.3, 0.3, 4)
+_STRAIN = st.integers(900, 1100).map(lambda k: k / 1000.0)
+_SHEAR = st.integers(-100, 100).map(lambda k: k / 1000.0)
+_SMALL = st.integers(-3000, 3000).map(lambda k: k / 10000.0)
 _PBCI = st.integers(0, 7)
 
 
